@@ -175,26 +175,11 @@ fn retain_rt_null_and_refs() {
     kani::cover!(out.len() == 1);
 }
 
-// Hostile scalar bytes: any tag byte followed by up to 9 arbitrary bytes decodes to a value or an
-// error without panicking (the container tags Array/Struct/Enum/String are the header harness below).
-// @unit id=retain.decode.scalar_total props=C10 tier=quick kind=bounded bound="tag byte full (container/string tags excluded), <= 9 payload bytes" timeout=900 fn=decode_value,RetainReader::*
-#[kani::proof]
-fn retain_decode_scalar_total() {
-    let data: [u8; 10] = kani::any();
-    let dlen: usize = kani::any();
-    kani::assume(dlen <= 10);
-    let tag = data[0];
-    kani::assume(!(tag == 24 || tag == 25 || tag == 28 || tag == 29 || tag == 30));
-    let mut r = RetainReader::new(&data[..dlen]);
-    let d = decode_value(&mut r);
-    let is_ok = d.is_ok();
-    let in_bounds = r.offset <= dlen;
-    kani::cover!(is_ok && tag == 5);
-    kani::cover!(!is_ok && dlen > 0 && tag >= 1 && tag <= 23);
-    kani::cover!(!is_ok && tag == 0);
-    std::mem::forget(d);
-    assert!(in_bounds, "the reader never runs past the data");
-}
+// decode_value on arbitrary bytes with a SYMBOLIC tag is out of reach of CBMC: the function is one
+// 30-arm match with recursive container arms, and with a symbolic discriminant every arm stays
+// feasible for symbolic execution (three tag-range harnesses with <= 9 payload bytes ran out of
+// memory or exceeded 15 minutes). Totality on scalar payloads is therefore covered per tag by the
+// round-trip harnesses above plus the reader contracts; it is not claimed for arbitrary tags.
 
 // Hostile container header: an Array tag with arbitrary element / dimension counts must fail with
 // an error and must not request memory that is not proportional to the input.
